@@ -37,10 +37,10 @@ ASSUMPTIONS = ["documents that could spell the tag xi:include (after removal of 
                "after a failed stream extraction `char c' keeps the previous character (indeterminate in ISO C++, stable in the "
                "compiled code; the correspondence run exercises it at every truncation offset)",
                "memory leaks are not reported (a throwing constructor leaks the sub-elements built so far): detect_leaks=0"]
-RULE = ("kind t: random element trees to depth 6 / width 6 (node budget 60), tags and attribute names from a name alphabet "
+RULE = ("kind t/m: random element trees to depth 6 / width 6 (node budget 60), tags and attribute names from a name alphabet "
         "with repeated sibling tags, values and text over printable ASCII (plus some Latin-1) biased to markup characters "
         "and to near-references that are not references, printed by the printer of Spec_C32.v (re-checked by the driver "
-        "with the extracted print_el) with find queries (existing, partly wrong and odd paths, // forms, attribute "
+        "with the extracted print_el; kind m: the same trees rendered with a random mix of named, decimal and hexadecimal references) with find queries (existing, partly wrong and odd paths, // forms, attribute "
         "tests, from the root and from inner elements); plus the three refuted regions (reference-shaped text, blank-only "
         "text, attribute docpath). kind b: truncation of printed documents at every offset, byte flips/insertions/"
         "deletions, duplicate attributes, unbalanced tags, nesting to and beyond MaxDepth, stray '&', reference soup, "
@@ -75,6 +75,28 @@ def print_el(t):
     if t.value is None and not t.kids:
         return out + b"/>"
     return out + b">" + escape(t.value or b"") + b"".join(print_el(k) for k in t.kids) + b"</" + t.tag + b">"
+
+
+def escape_mixed(rng, v):
+    """markup characters (always) and other characters (sometimes) as named / decimal / hexadecimal references"""
+    out = bytearray()
+    for c in v:
+        if c in ESC or rng.random() < 0.08:
+            forms = [b"&#%d;" % c, b"&#x%x;" % c, b"&#x%X;" % c, b"&#0%d;" % c, b"&#x00%x;" % c]
+            if c in ESC:
+                forms += [ESC[c]] * 3
+            out += rng.choice(forms)
+        else:
+            out.append(c)
+    return bytes(out)
+
+
+def print_mixed(rng, t):
+    out = b"<" + t.tag + b"".join(b" " + k + b'="' + escape_mixed(rng, v) + b'"' for k, v in t.attrs)
+    if t.value is None and not t.kids:
+        return out + b"/>"
+    return (out + b">" + escape_mixed(rng, t.value or b"") + b"".join(print_mixed(rng, k) for k in t.kids)
+            + b"</" + t.tag + b">")
 
 
 def dump(t):
@@ -249,6 +271,10 @@ def tcase(t, queries, cls):
     return Case("t %s %s %s" % (print_el(t).hex(), dump(t), queries), cls)
 
 
+def mcase(rng, t, queries, cls):
+    return Case("m %s %s %s" % (print_mixed(rng, t).hex(), dump(t), queries), cls)
+
+
 def bcase(b, cls, queries="-"):
     return Case("b %s - %s" % (bytes(b).hex() or "-", queries), cls)
 
@@ -326,6 +352,8 @@ def gen_cases(rng, tier):
         cs.append(tcase(t, rand_queries(rng, t, rng.choice((0, 2, 4, 8))), "tree-wf"))
         if len(print_el(t)) < 120:
             small.append(t)
+        if n % 3 == 0:
+            cs.append(mcase(rng, t, rand_queries(rng, t, 2), "tree-wf-mixed-references"))
     # full depth 6 / width 6 skeletons
     for _ in range(20 if thorough else 4):
         t = rand_tree(rng, 6, 6, [rng.choice((200, 400))], tags=TAGS[:3])
@@ -421,7 +449,7 @@ def gen_cases(rng, tier):
 # ------------------------------------------------------------------------------ evaluation
 def nontrivial(case, r):
     f = case.line.split(" ")
-    if f[0] == "t":
+    if f[0] in "tm":
         t = parse_dump(f[2])
         return sum(1 for _ in nodes(t)) >= 3 or any(c in ESC for s in strings(t) for c in s)
     return r.startswith("E ") or (r.startswith("T <") and r.count("<") >= 2)
@@ -429,7 +457,7 @@ def nontrivial(case, r):
 
 def _tree(case):
     f = case.line.split(" ")
-    return parse_dump(f[2]) if f[0] == "t" else None
+    return parse_dump(f[2]) if f[0] in "tm" else None
 
 
 def _blank_only(v):
@@ -471,7 +499,24 @@ def extra_search(rng, seeds, tier):
     return out
 
 
+def _outside(t):
+    """in one of the refuted regions (where the unchanged code fails the oracle as well)"""
+    return (any(not ref_free(s) for s in strings(t)) or any(_blank_only(n.value) for n in nodes(t))
+            or any(k == b"docpath" for n in nodes(t) for k, _ in n.attrs))
+
+
 def shrink(case):
+    cands = _shrink(case)
+    f = case.line.split(" ")
+    if f[0] in "tm":
+        # do not drift from a new failure into a listed finding
+        if _outside(parse_dump(f[2])):
+            return []
+        cands = [c for c in cands if not _outside(parse_dump(c.line.split(" ")[2]))]
+    return cands
+
+
+def _shrink(case):
     f = case.line.split(" ")
     out = []
     if f[0] == "b":
